@@ -1115,6 +1115,34 @@ def trace_generated_text(ctx: Ctx, mod, fn, _depth=0, bindings=None):
         if isinstance(st, ast.Assign) and len(st.targets) == 1 and isinstance(st.targets[0], ast.Name):
             assigns.setdefault(st.targets[0].id, []).append(st.value)
 
+    inlined = {}
+
+    def inline(e):
+        """f(a, k=b) where f is a function of the module whose body is `return <expression>` (a construction helper):
+        that expression with the parameters replaced by the arguments"""
+        if id(e) in inlined:
+            return inlined[id(e)]
+        out = e
+        if isinstance(e, ast.Call) and dotted(e.func) in mod.functions() and not any(isinstance(a_, ast.Starred) for a_ in e.args) \
+                and all(k_.arg for k_ in e.keywords):
+            callee = mod.functions()[dotted(e.func)]
+            body = [st for st in callee.body if not (isinstance(st, ast.Expr) and isinstance(st.value, ast.Constant))]
+            a = callee.args
+            if callee is not fn and len(body) == 1 and isinstance(body[0], ast.Return) and body[0].value is not None \
+                    and not (a.vararg or a.kwarg or a.posonlyargs or a.defaults or a.kwonlyargs or callee.decorator_list):
+                ps = [x.arg for x in a.args]
+                bind = dict(zip(ps, e.args))
+                bind.update({k_.arg: k_.value for k_ in e.keywords if k_.arg in ps})
+                if set(bind) == set(ps):
+                    import copy as _copy
+
+                    class _S(ast.NodeTransformer):
+                        def visit_Name(self, n_):
+                            return bind[n_.id] if isinstance(n_.ctx, ast.Load) and n_.id in bind else n_
+                    out = _S().visit(_copy.deepcopy(body[0].value))
+        inlined[id(e)] = out
+        return out
+
     def resolve(e, depth=0):
         if isinstance(e, ast.Name) and e.id in assigns and depth < 6:
             vals = assigns[e.id]
@@ -1122,6 +1150,10 @@ def trace_generated_text(ctx: Ctx, mod, fn, _depth=0, bindings=None):
                 return resolve(vals[0], depth + 1)
         if isinstance(e, ast.Name) and bindings and e.id in bindings:
             return bindings[e.id]
+        if isinstance(e, ast.Call) and depth < 6:
+            e2 = inline(e)
+            if e2 is not e:
+                return resolve(e2, depth + 1)
         return e
 
     gens = [n for n in ast.walk(fn) if isinstance(n, ast.Call) and isinstance(n.func, ast.Attribute)
